@@ -1,12 +1,17 @@
 (* Props/C21.v — The data-location registry answers consistently with its history.
-   Statements only; proofs are in DataReg/Proofs.v and DataReg/Rereg.v.  The model is DataReg/Model.v (the code
-   after /repo commit 6a12257 "fix: make re-registered paths available again in the data manager").
+   Statements only; proofs are in DataReg/Proofs.v, Rereg.v and Inval.v.  The model is DataReg/Model.v (the code
+   after /repo commits 6a12257 "fix: make re-registered paths available again in the data manager" and 8b8c381
+   "fix: invalidate the whole subtree of a path in the data manager").
 
    What is NOT proved here (see design/notes/C21.md): the full "exactly when" characterisation of availability
-   by the history (only exercised by the correspondence + oracle), the downward propagation of an invalidation
-   to everything beneath the path, and isolation between locations. *)
+   by the history as one refinement theorem (C21_refines_partial of the design).  What is proved is that the last
+   event decides on its own footprint (registration: the path and its ancestors become available; invalidation:
+   the path and everything beneath become unavailable), that an invalidation changes nothing for other locations,
+   and that registrations/relations remove nothing; the frame of a registration and the same-location frame of an
+   invalidation (which fails in the presence of same-location relations: related copies share their fate) are
+   only exercised by the correspondence + oracle. *)
 From Coq Require Import List Bool Arith.
-From SF Require Import Base.Str Base.Corr DataReg.Model DataReg.Proofs DataReg.Rereg.
+From SF Require Import Base.Str Base.Corr DataReg.Model DataReg.Proofs DataReg.Rereg DataReg.Inval.
 Import ListNotations.
 Local Open Scope string_scope. Local Open Scope list_scope.
 
@@ -38,10 +43,41 @@ Theorem C21_relate_monotone_partial : forall s r1 r2 np key lp,
   has_valid s np key lp = true -> has_valid (relate s r1 r2) np key lp = true.
 Proof. intros. eapply has_valid_le; [apply le_relate|eassumption]. Qed.
 
-(* The text's "available exactly when ... not invalidated since" is FALSE of the faithful model (known finding
-   reports-invalidated/dupreg): register /b/a, register / (already registered as an ancestor: register_path
-   hands out a second object for the same copy), relate them, invalidate "/" — "/b/a" is still reported at the
-   invalidated copy d1/n1:"/". *)
+(* "Invalidating a path on a location also invalidates everything registered beneath it on that location":
+   in EVERY state (any history, including the duplicate-object known finding), after a successful
+   invalidate_location(l, p) no path at or beneath p is available on l.  (False of the code before 8b8c381.) *)
+Theorem C21_invalidate_subtree : forall s key p s' q,
+  invalidate s key p = (s', IOk) -> beneath p q = true -> available s' q key = false.
+Proof. exact invalidate_subtree. Qed.
+
+(* "... and nothing on other locations": in every state reachable by a history of registrations, relations and
+   invalidations (any location table), invalidate_location on l leaves the tree and every object of any other
+   location untouched, hence every get_data_locations answer restricted to another location is the same list of
+   the same objects with the same contents *)
+Theorem C21_isolation : forall tab ops key p,
+  let s := rs (run tab ops) in
+  let s' := fst (invalidate s key p) in
+  nodes s' = nodes s /\
+  (forall r d, hget s r = Some d -> dl_loc d <> key -> hget s' r = Some d) /\
+  (forall key' q t, key' <> key ->
+     get_dl s' q (Some (fst key')) (Some (snd key')) t = get_dl s q (Some (fst key')) (Some (snd key')) t /\
+     forall r, In r (get_dl s q (Some (fst key')) (Some (snd key')) t) -> hget s' r = hget s r).
+Proof.
+  intros tab ops key p s s'. assert (W : wfk s) by apply wfk_reachable.
+  destruct (invalidate_isolation s key p W) as [N H]. repeat split; try assumption.
+  - apply (invalidate_isolation_get s key p key' q t W H0).
+  - apply (invalidate_isolation_get s key p key' q t W H0).
+Qed.
+
+(* an invalidation never makes anything available *)
+Theorem C21_invalidate_monotone : forall s key p r,
+  not_invalid s r = false -> not_invalid (fst (invalidate s key p)) r = false.
+Proof. exact invalidate_mono. Qed.
+
+(* The text's "available exactly when ... not invalidated since" is still FALSE of the faithful model (known
+   finding reports-invalidated/dupreg): register /a/a twice (register_path hands out a second object for the same
+   copy, which the tree does not hold under /a/a), register /z, relate(/z, second object), invalidate /a/a —
+   "/z" is still reported at the invalidated copy d1/n1:"/a/a". *)
 Definition one_loc := [mkloc ("d1", "n1") false None []].
 Theorem C21_invalidated_copy_reported_refuted :
   exists tab ops l q p,
@@ -51,7 +87,8 @@ Theorem C21_invalidated_copy_reported_refuted :
                       | None => false
                       end) (get_dl s p None None None) = true.
 Proof.
-  exists one_loc, [Reg 0 ["b"; "a"] PRIMARY; Reg 0 [] PRIMARY; Rel 0 1], 0, [], ["b"; "a"].
+  exists one_loc, [Reg 0 ["a"; "a"] PRIMARY; Reg 0 ["a"; "a"] PRIMARY; Reg 0 ["z"] PRIMARY; Rel 2 1], 0,
+         ["a"; "a"], ["z"].
   vm_compute. reflexivity.
 Qed.
 
@@ -61,6 +98,16 @@ Example C21_design_item6 :
   available s ["b"; "y"] ("d1", "n1") = false /\
   available (fst (register one_loc s 0 ["b"; "y"] PRIMARY)) ["b"; "y"] ("d1", "n1") = true /\
   ancestors ["b"; "y"] = [["b"]; []].
+Proof. vm_compute. repeat split; reflexivity. Qed.
+(* the history on which the code before 8b8c381 left /p/c/f available after invalidating /p *)
+Example C21_subtree_example :
+  let tab := [mkloc ("d1", "n1") false None []; mkloc ("d2", "n1") false None []] in
+  let s := rs (run tab [Reg 0 ["p"; "c"] PRIMARY; Reg 1 ["z"] PRIMARY; Rel 0 1; Reg 1 ["p"; "c"] PRIMARY; Rel 1 2;
+                        Reg 1 ["p"; "c"; "f"] PRIMARY]) in
+  available s ["p"; "c"; "f"] ("d2", "n1") = true /\
+  snd (invalidate s ("d2", "n1") ["p"]) = IOk /\ beneath ["p"] ["p"; "c"; "f"] = true /\
+  available (fst (invalidate s ("d2", "n1") ["p"])) ["p"; "c"; "f"] ("d2", "n1") = false /\
+  available (fst (invalidate s ("d2", "n1") ["p"])) ["p"; "c"] ("d1", "n1") = true.
 Proof. vm_compute. repeat split; reflexivity. Qed.
 Example C21_source_example :
   let s := rs (run one_loc [Reg 0 ["a"; "x"] PRIMARY]) in
@@ -72,3 +119,6 @@ Print Assumptions C21_source_valid.
 Print Assumptions C21_register_monotone_partial.
 Print Assumptions C21_relate_monotone_partial.
 Print Assumptions C21_invalidated_copy_reported_refuted.
+Print Assumptions C21_invalidate_subtree.
+Print Assumptions C21_isolation.
+Print Assumptions C21_invalidate_monotone.
